@@ -362,6 +362,7 @@ def run(repo, rep):
                "or a Vela helper interpreted on probe arguments against the real function (absolute error <= 1e-9, far below half an output step)")
     _lut_functions(repo, rep)
     _boundaries(repo, rep)
+    _folding(repo, rep)
     rep.clause("C19-f", "tables share storage only when they are equal: the equivalence id of a LUT tensor is keyed by the complete value sequence (an injective key, no hash / digest / aggregate)")
     lu = repo.mod("lut")
     ct = lu.func("create_lut_tensor")
@@ -466,3 +467,54 @@ def _boundaries(repo, rep):
             raise AnalysisError(f"convert_ops_to_lut.log: stand-in `{txt}` for log(0) is not a constant this check can evaluate")
         rep.check(0 < val <= _sys.float_info.min, "C19-e", site2, "the stand-in for log(0) is the smallest positive (normal) double: log = -708 saturates for every output quantisation",
                   f"stand-in `{txt}` = {val!r}: log = {math.log(val):.1f} does not reach the lowest output code when the output scale is coarse (e.g. -36/0.5 + 90), where the reference gives -128")
+
+
+def _folding(repo, rep):
+    """(b) constant folding of QUANTIZE: whatever is stored into the folded constant's integer array was produced by the integer
+    fixed-point helpers or passed through round_away_zero (the reference kernel's rounding); a float quotient that reaches the
+    integer cast unrounded is truncated toward zero."""
+    go = repo.mod("tflite_graph_optimiser")
+    f = go.func("optimise_quantize")
+    site = "ethosu/vela/tflite_graph_optimiser.py:optimise_quantize"
+    stores = [st for st in ast.walk(f) if isinstance(st, ast.Assign) and str(norm(st.targets[0])) == "ofm.values" and isinstance(st.value, ast.Call) and call_name(st.value) in ("np.array", "numpy.array")
+              and len(st.value.args) >= 2 and "as_numpy_type" in str(norm(st.value.args[1]))]
+    if len(stores) < 2:
+        raise AnalysisError("optimise_quantize: folded value stores not found")
+    assigns = {}
+    for st in ast.walk(f):
+        if isinstance(st, ast.Assign) and len(st.targets) == 1 and isinstance(st.targets[0], ast.Name):
+            assigns.setdefault(st.targets[0].id, []).append(st)
+
+    def unrounded_division(e, at, depth=0):
+        """a true division whose result reaches `e` without passing a rounding call"""
+        if depth > 6:
+            return None
+        if isinstance(e, ast.Call):
+            cn = call_name(e) or ""
+            if cn.split(".")[-1] in ("round_away_zero",) or cn.startswith("fp_math."):
+                return None
+            for a_ in list(e.args) + [k.value for k in e.keywords]:
+                r = unrounded_division(a_, at, depth + 1)
+                if r:
+                    return r
+            return None
+        if isinstance(e, ast.BinOp):
+            if isinstance(e.op, ast.Div):
+                return str(norm(e))
+            return unrounded_division(e.left, at, depth + 1) or unrounded_division(e.right, at, depth + 1)
+        if isinstance(e, ast.Name) and e.id in assigns:
+            prior = sorted((s_ for s_ in assigns[e.id] if s_.lineno < at), key=lambda s_: s_.lineno)
+            if prior:
+                return unrounded_division(prior[-1].value, prior[-1].lineno, depth + 1)
+        return None
+
+    for st in stores:
+        lst = st.value.args[0]
+        if not isinstance(lst, ast.Name):
+            continue
+        apps = [c for c in ast.walk(f) if isinstance(c, ast.Call) and str(norm(c.func)) == f"{lst.id}.append" and c.lineno < st.lineno]
+        apps = [c for c in apps if not any(s2.lineno > c.lineno and s2.lineno < st.lineno and s2 is not st for s2 in stores)]
+        for c in apps:
+            bad = unrounded_division(c.args[0], c.lineno)
+            rep.check(bad is None, "C19-b", site, f"values appended to `{lst.id}` (cast to the output's integer type) are integers or rounded with round_away_zero",
+                      f"`{bad}` reaches the integer cast unrounded: np.array(..., int8) truncates toward zero, the reference kernel rounds (folding 2.7 at scale 1 gives 2, reference 3)")
